@@ -67,6 +67,8 @@ func (s *Mut) Apply(st *state.StateDB, op string, idx int) (ob string, ok bool) 
 		st.SetNonce(Acc[1], 1)
 	case "log":
 		st.AddLog(&types.Log{Address: Acc[0], Data: []byte{byte(idx)}})
+	case "preimage": // SHA3 with preimage recording on
+		st.AddPreimage(common.BigToHash(big.NewInt(int64(1000+idx))), []byte{byte(idx)})
 	case "refund":
 		st.AddRefund(1)
 
